@@ -29,7 +29,7 @@ impl<A: SvArray> SmallVec<A> {
     #[verifier::external_body]
     pub fn at(&self, i: usize) -> (r: &A::Item) requires i < self@.len() ensures *r == self@[i as int] { &self.v[i] }
     #[verifier::external_body]
-    pub fn get(&self, i: usize) -> (r: Option<&A::Item>) ensures match r { Some(x) => i < self@.len() && *x == self@[i as int], None => i >= self@.len() } { self.v.get(i) }
+    pub fn get(&self, i: usize) -> (r: Option<&A::Item>) ensures self@.len() <= usize::MAX, match r { Some(x) => i < self@.len() && *x == self@[i as int], None => i >= self@.len() } { self.v.get(i) }
     #[verifier::external_body]
     pub fn remove(&mut self, i: usize) -> (r: A::Item) requires i < old(self)@.len() ensures r == old(self)@[i as int], final(self)@ == old(self)@.remove(i as int) { self.v.remove(i) }
     #[verifier::external_body]
